@@ -42,6 +42,12 @@ type stepJ struct {
 	Depth int    `json:"d"`             // blocks removed
 	N     int    `json:"n"`             // blocks added
 	Pay   []bool `json:"pay,omitempty"` // per added block: it holds a transaction paying the wallet
+	// kind "rescan" (only step of its case; the wallet is synced to height
+	// From, the chain is Init high): BitcoindClient.Rescan from the block at
+	// From; when the client asks for its At-th block the node reorganises
+	// (Depth blocks replaced by N new ones; At = 0: no reorganisation)
+	From int `json:"from,omitempty"`
+	At   int `json:"at,omitempty"`
 }
 
 // walletObs is what the wallet that was handed the notifications says.
@@ -227,8 +233,13 @@ func runCase(name string, init int, steps []stepJ) (caseJ, error) {
 	params := chaincfg.RegressionNetParams
 	r := &runner{c: simchain.New(&params), ids: map[chainhash.Hash]int64{}}
 	r.register(r.c.Tip())
-	for i := 0; i < init; i++ {
-		r.register(r.c.Extend(nil, nil))
+	rescan := len(steps) == 1 && steps[0].Kind == "rescan"
+	walletAt := init
+	if rescan {
+		walletAt = steps[0].From
+		if walletAt < 0 || walletAt > init {
+			return caseJ{}, fmt.Errorf("rescan from height %d of %d", walletAt, init)
+		}
 	}
 	// the wallet that will be handed the client's notifications: synced to
 	// the initial chain through its own handlers
@@ -246,7 +257,15 @@ func runCase(name string, init int, steps []stepJ) (caseJ, error) {
 	if r.script, err = txscript.PayToAddrScript(addr); err != nil {
 		return caseJ{}, err
 	}
-	for h := int32(1); h <= int32(init); h++ {
+	for i := 0; i < init; i++ {
+		// in a rescan case every third block above the wallet's height pays the wallet
+		var txs []*wire.MsgTx
+		if rescan && i >= walletAt && i%3 == 1 {
+			txs = []*wire.MsgTx{r.payTx()}
+		}
+		r.register(r.c.Extend(txs, nil))
+	}
+	for h := int32(1); h <= int32(walletAt); h++ {
 		if err := env.W.VerifConnectBlock(r.c.At(h).Meta()); err != nil {
 			return caseJ{}, err
 		}
@@ -257,10 +276,18 @@ func runCase(name string, init int, steps []stepJ) (caseJ, error) {
 		return caseJ{}, err
 	}
 	defer srv.Close()
+	// a rescan case isolates BitcoindClient.rescan: block notifications are
+	// switched on (as the wallet does before it asks for a rescan) but the
+	// poller stays silent, so ntfnHandler's own reorg handling does not
+	// interleave with the rescan
+	pollEvery := 2 * time.Millisecond
+	if rescan {
+		pollEvery = time.Hour
+	}
 	conn, err := chain.NewBitcoindConn(&chain.BitcoindConfig{
 		ChainParams: &params, Host: srv.Host(), User: "u", Pass: "p",
 		PollingConfig: &chain.PollingConfig{
-			BlockPollingInterval: 2 * time.Millisecond,
+			BlockPollingInterval: pollEvery,
 			TxPollingInterval:    time.Hour,
 		},
 	})
@@ -292,8 +319,8 @@ func runCase(name string, init int, steps []stepJ) (caseJ, error) {
 	out := caseJ{Name: name, Init: init}
 	// the chain the notifications have described so far (what a wallet that
 	// applies them holds): heights init.. as a stack of block ids
-	followed := []int64{r.id(r.c.Tip().Hash)}
-	followedBase := r.c.Tip().Height
+	followed := []int64{r.id(r.c.At(int32(walletAt)).Hash)}
+	followedBase := int32(walletAt)
 	viol := func(kind, site, detail string) {
 		out.Violations = append(out.Violations, []string{kind, site, detail})
 	}
@@ -302,7 +329,56 @@ func runCase(name string, init int, steps []stepJ) (caseJ, error) {
 		before := r.c.Tip().Height
 		bs0, _ := cl.BlockStamp()
 		var added []*simchain.Block
-		if st.Kind == "extend" {
+		if st.Kind == "rescan" {
+			fired := make(chan struct{})
+			var once sync.Once
+			if st.At > 0 {
+				srv.Hook = func(method string, n int) {
+					if method == "getblock" && n == st.At {
+						once.Do(func() {
+							_, nb := r.c.ReorgTxs(st.Depth, r.blockTxs(st.Pay, st.N))
+							r.mu.Lock()
+							added = nb
+							r.mu.Unlock()
+							close(fired)
+						})
+					}
+				}
+			}
+			start := r.c.At(int32(walletAt)).Hash
+			if err := cl.Rescan(&start, []btcutil.Address{addr}, nil); err != nil {
+				return caseJ{}, err
+			}
+			// until RescanFinished, or the rescan gives up
+			deadline := time.Now().Add(4 * time.Second)
+			for time.Now().Before(deadline) {
+				r.mu.Lock()
+				fin := false
+				for _, n := range r.ntfns {
+					if _, ok := n.(*chain.RescanFinished); ok {
+						fin = true
+					}
+				}
+				r.mu.Unlock()
+				if fin {
+					break
+				}
+				time.Sleep(2 * time.Millisecond)
+			}
+			srv.Hook = nil
+			r.mu.Lock()
+			nb := added
+			r.mu.Unlock()
+			added = nb
+			before = -1 // always judged ...
+			if st.At == init-st.From && st.N <= st.Depth {
+				// ... unless the node switched to a branch that is not
+				// higher while the rescan fetched its LAST block: no later
+				// request of the rescan can show it (the next block
+				// notification will); the stream is still judged
+				before = 1 << 30
+			}
+		} else if st.Kind == "extend" {
 			_, added = r.c.ReorgTxs(0, r.blockTxs(st.Pay, st.N))
 		} else {
 			_, added = r.c.ReorgTxs(st.Depth, r.blockTxs(st.Pay, st.N))
@@ -324,6 +400,10 @@ func runCase(name string, init int, steps []stepJ) (caseJ, error) {
 		deadline := time.Now().Add(3 * time.Second)
 		if !so.Visible {
 			deadline = time.Now().Add(60 * time.Millisecond)
+		}
+		if st.Kind == "rescan" {
+			deadline = time.Now()
+			so.Settled = true // judged by the notified tip below
 		}
 		for time.Now().Before(deadline) {
 			bs, _ := cl.BlockStamp()
@@ -494,6 +574,22 @@ func emit(out *core.Emitter, in inJ) error {
 			paid = true
 		}
 	}
+	if len(in.Steps) == 1 && in.Steps[0].Kind == "rescan" {
+		o.Tags = append(o.Tags, "bitcoind_rescan")
+		nd := 0
+		for _, x := range c.Steps[0].Ntfns {
+			if x.Kind == "disc" {
+				nd++
+			}
+		}
+		if nd > 0 {
+			o.Tags = append(o.Tags, "reorg_during_rescan_detaches_notified_block")
+			deep = true
+		}
+		if in.Steps[0].At > 0 && in.Steps[0].Depth > in.Init-in.Steps[0].From {
+			o.Tags = append(o.Tags, "reorg_during_rescan_below_start_block")
+		}
+	}
 	if deep {
 		o.Tags = append(o.Tags, "bitcoind_reorg_deeper_than_one")
 	}
@@ -530,9 +626,45 @@ func main() {
 			{Name: "w-back-to-back", Init: 6, Steps: []stepJ{{Kind: "reorg", Depth: 2, N: 3}, {Kind: "reorg", Depth: 3, N: 4}, {Kind: "reorg", Depth: 1, N: 2}}},
 			{Name: "w-jump", Init: 3, Steps: []stepJ{{Kind: "extend", N: 3}, {Kind: "reorg", Depth: 4, N: 6}}},
 		}
+		ws = append(ws,
+			inJ{Name: "w-rescan-no-reorg", Init: 8, Steps: []stepJ{{Kind: "rescan", From: 2}}},
+			inJ{Name: "w-rescan-reorg-depth1-at-fetched-block", Init: 8, Steps: []stepJ{{Kind: "rescan", From: 2, At: 4, Depth: 3, N: 4, Pay: []bool{true, false, false, true}}}},
+			inJ{Name: "w-rescan-reorg-depth3-below-fetched-blocks", Init: 9, Steps: []stepJ{{Kind: "rescan", From: 1, At: 6, Depth: 6, N: 8, Pay: []bool{false, true}}}},
+			inJ{Name: "w-rescan-reorg-below-rescan-start", Init: 6, Steps: []stepJ{{Kind: "rescan", From: 4, At: 1, Depth: 4, N: 6, Pay: []bool{true}}}},
+			inJ{Name: "w-rescan-reorg-replaces-start-block-only", Init: 5, Steps: []stepJ{{Kind: "rescan", From: 5, At: 0, Depth: 0, N: 0}}},
+			inJ{Name: "w-rescan-reorg-above-fetched-blocks", Init: 9, Steps: []stepJ{{Kind: "rescan", From: 1, At: 3, Depth: 2, N: 3}}},
+		)
 		for _, w := range ws {
 			w.BD = true
 			if err := emit(out, w); err != nil {
+				return err
+			}
+		}
+		// reorganisations DURING a rescan: start height, the fetch at which
+		// the node switches, depth (above / at / below the fetched blocks,
+		// below the start block) and length of the new branch
+		for i := 0; i < c.N/2+1; i++ {
+			g := gen.New(c.Seed, int64(9000+i))
+			init := 3 + g.Intn(9)
+			from := g.Intn(init)
+			at := 0
+			if g.Intn(8) != 0 {
+				at = 1 + g.Intn(init-from)
+			}
+			depth := 1 + g.Intn(init-1)
+			if depth > init-1 {
+				depth = init - 1
+			}
+			n := depth + g.Intn(4)
+			st := stepJ{Kind: "rescan", From: from, At: at}
+			if at > 0 {
+				st.Depth, st.N = depth, n
+				st.Pay = make([]bool, n)
+				for j := range st.Pay {
+					st.Pay[j] = g.Intn(3) == 0
+				}
+			}
+			if err := emit(out, inJ{BD: true, Name: fmt.Sprintf("r-%d-%d", c.Seed, i), Init: init, Steps: []stepJ{st}}); err != nil {
 				return err
 			}
 		}
